@@ -344,9 +344,8 @@ def r3(ctx):
     p = rcfg.find_path(an, head, avoid_nodes=[wn], avoid_edges=free)
     ctx.ob(run.qual, "changes-printed-for-every-chromosome", okarg and p is None, run.loc(wc[0]), "the list returned for a chromosome is handed to write_changed_genotypes on every path when the list is requested" if okarg and p is None else "the changes of a chromosome can be dropped before they are listed", rcfg.describe_path(p))
     wcf = ctx.func(PH + ".write_changed_genotypes")
-    pr = [p_ for p_ in ctx.prog.calls_in(wcf.node) if u(p_.func) == "print"]
-    for p_ in pr:
-        for a in p_.args:
+    for p_, cells_ in util.row_writes(wcf.node):
+        for a in [util.resolve_locals(wcf.node, e_[1]) for e_ in (cells_ or []) if e_[0] == "one"]:
             if u(a).endswith(".position") or ".position " in u(a):
                 lf = linear(a)
                 ok1 = lf is not None and lf.get("", 0) == 1
@@ -568,9 +567,8 @@ def r4(ctx):
             if mods and divs and u(mods[0].value.left) == u(divs[0].targets[0]) == u(divs[0].value.left) and n.body.index(mods[0]) < n.body.index(divs[0]):
                 ok = any(isinstance(c, ast.Call) and isinstance(c.func, ast.Attribute) and c.func.attr == "append" and ("%s.child" % u(n.target)) in u(c.func.value) and u(c.args[0]) == u(mods[0].targets[0]) for c in ast.walk(n))
     ctx.ob(wr.qual, "two-bits-per-trio-in-trios-order", ok, wr.loc(), "the transmission value is split into base-4 digits in trios order, digit t belongs to trios[t].child" if ok else "transmission values are not decoded as `% 4` then `// 4` per trio in trios order")
-    pr = [p_ for p_ in ctx.prog.calls_in(wr.node) if u(p_.func) == "print"]
-    for p_ in pr:
-        for a in p_.args:
+    for p_, cells_ in util.row_writes(wr.node):
+        for a in [util.resolve_locals(wr.node, e_[1]) for e_ in (cells_ or []) if e_[0] == "one"]:
             if ".position" in u(a):
                 lf = linear(a)
                 ok1 = lf is not None and lf.get("", 0) == 1
@@ -593,4 +591,6 @@ RULES = [
     ("C20.R3", "genotype change list = GT stores of a different genotype", r3),
     ("C20.R4", "recombinations between consecutive members of one set; decoding", r4),
 ]
-FLOORS = {"C20.R1": 14, "C20.R2": 8, "C20.R3": 6, "C20.R4": 10}
+# instance floors: about 60% of the instances confirmed by hand on the reference tree -- a rule that suddenly matches far fewer
+# sites fails the run (exit 2); a clean-up that merges two sites into one does not
+FLOORS = {"C20.R1": 8, "C20.R2": 4, "C20.R3": 3, "C20.R4": 6}
